@@ -113,6 +113,25 @@ Fixpoint upper_pe (s : str) : str :=
       else x :: upper_pe r
   end.
 
+(* urllib.parse.unquote_to_bytes on ASCII text: '%' followed by two hex digits (either
+   case) is that byte, any other '%' stays (stdlib, not wpull code; used by the C10
+   proof of the user-info round trip and compared with the real function on every run) *)
+Definition hexv (c : N) : N :=
+  if (48 <=? c) && (c <=? 57) then c - 48 else if (97 <=? c) && (c <=? 102) then c - 87 else c - 55.
+Fixpoint unescape (s : str) : list N :=
+  match s with
+  | [] => []
+  | x :: r =>
+      if x =? 37 then
+        match r with
+        | a :: b :: r2 =>
+            if is_hex a && is_hex b then (16 * hexv a + hexv b) :: unescape r2
+            else 37 :: unescape r
+        | _ => 37 :: unescape r
+        end
+      else x :: unescape r
+  end.
+
 (* ---------- int / IPv4 ---------- *)
 Section WithOracles.
 
